@@ -473,6 +473,158 @@ fn total_size_beyond_4_gib(acc: &mut Acc) {
     }
 }
 
+/// One primitive write, applied to any `BinaryOutput`.
+#[derive(Clone, Debug)]
+enum WOp {
+    U8(u8),
+    Bytes(Vec<u8>),
+    U16(u16),
+    I32(i32),
+    U64(u64),
+    I128(i128),
+    F64(u64),
+    VarU(u32),
+    VarI(i32),
+    Compressed(Vec<u8>, u32),
+}
+
+fn apply_wop<O: BinaryOutput>(o: &mut O, op: &WOp) -> desert::Result<()> {
+    match op {
+        WOp::U8(x) => o.write_u8(*x),
+        WOp::Bytes(b) => o.write_bytes(b),
+        WOp::U16(x) => o.write_u16(*x),
+        WOp::I32(x) => o.write_i32(*x),
+        WOp::U64(x) => o.write_u64(*x),
+        WOp::I128(x) => o.write_i128(*x),
+        WOp::F64(x) => o.write_f64(f64::from_bits(*x)),
+        WOp::VarU(x) => o.write_var_u32(*x),
+        WOp::VarI(x) => o.write_var_i32(*x),
+        WOp::Compressed(b, level) => return o.write_compressed(b, flate2::Compression::new(*level)),
+    }
+    Ok(())
+}
+
+fn gen_wop(rng: &mut refmodel::Rng) -> WOp {
+    // variable-length integers on, next to and between the powers of two, both signs
+    let pow = |rng: &mut refmodel::Rng| -> i64 {
+        let k = rng.below(33);
+        let p = 1i64 << k;
+        match rng.below(4) {
+            0 => p,
+            1 => p - 1,
+            2 => p + 1,
+            _ => rng.range(0, p.max(1)),
+        }
+    };
+    match rng.below(14) {
+        0 => WOp::U8(rng.below(256) as u8),
+        1 => {
+            let n = *rng.pick(&[0usize, 1, 2, 7, 127, 128, 129, 300]);
+            WOp::Bytes(rng.bytes(n))
+        }
+        2 => WOp::U16(rng.next_u64() as u16),
+        3 => WOp::I32(rng.next_u64() as i32),
+        4 => WOp::U64(rng.next_u64()),
+        5 => WOp::I128(((rng.next_u64() as u128) << 64 | rng.next_u64() as u128) as i128),
+        6 => WOp::F64(rng.next_u64()),
+        7..=9 => WOp::VarU(pow(rng).min(u32::MAX as i64) as u32),
+        10..=12 => {
+            let m = pow(rng).min(i32::MAX as i64 + 1);
+            let v = if rng.chance(1, 2) { -m } else { m.min(i32::MAX as i64) };
+            WOp::VarI(v.max(i32::MIN as i64) as i32)
+        }
+        _ => {
+            let n = *rng.pick(&[0usize, 1, 64, 500]);
+            let b = if rng.chance(1, 2) { vec![7u8; n] } else { rng.bytes(n) };
+            WOp::Compressed(b, rng.below(10) as u32)
+        }
+    }
+}
+
+/// The write-side counterpart of the read sequences: one sequence of primitive writes goes to every sink — Vec<u8>,
+/// BytesMut, a recording user output, each of them also behind a SerializationContext, a context with a chunk buffer
+/// pushed — and to SizeCalculator directly and behind a context: identical bytes everywhere, and the exact count.
+fn write_op_sequences(ctx: &mut Ctx, acc: &mut Acc, rounds: u64) {
+    use desert::SerializationContext;
+    use sbase::Recording;
+    for round in 0..rounds {
+        if round % ctx.shards as u64 != ctx.shard as u64 {
+            continue;
+        }
+        let mut rng = ctx.rng_for(0xC15 ^ 0x0F, "write_ops", round);
+        let n = 1 + rng.below(24) as usize;
+        let ops: Vec<WOp> = (0..n).map(|_| gen_wop(&mut rng)).collect();
+        let out = sbase::monitored(None, || -> Result<Vec<(&'static str, Vec<u8>, usize)>, sbase::ErrClass> {
+            let mut res: Vec<(&'static str, Vec<u8>, usize)> = Vec::new();
+            macro_rules! run {
+                ($name:expr, $mk:expr, $bytes:expr) => {{
+                    let mut o = $mk;
+                    for op in &ops {
+                        apply_wop(&mut o, op).map_err(|e| sbase::classify(&e))?;
+                    }
+                    let b: Vec<u8> = $bytes(o);
+                    res.push(($name, b, 0));
+                }};
+            }
+            run!("Vec<u8>", Vec::<u8>::new(), |o: Vec<u8>| o);
+            run!("BytesMut", BytesMut::new(), |o: BytesMut| o.to_vec());
+            run!("user output", Recording::default(), |o: Recording| o.bytes);
+            run!("context over Vec<u8>", SerializationContext::new(Vec::<u8>::new()), |o: SerializationContext<Vec<u8>>| o.into_output());
+            run!("context over BytesMut", SerializationContext::new(BytesMut::new()), |o: SerializationContext<BytesMut>| o.into_output().to_vec());
+            run!("context over a user output", SerializationContext::new(Recording::default()), |o: SerializationContext<Recording>| o.into_output().bytes);
+            {
+                // writes made while a chunk buffer is pushed land in the buffer
+                let mut o = SerializationContext::new(Vec::<u8>::new());
+                o.push_buffer(Vec::new());
+                for op in &ops {
+                    apply_wop(&mut o, op).map_err(|e| sbase::classify(&e))?;
+                }
+                let buf = o.pop_buffer();
+                let rest = o.into_output();
+                if !rest.is_empty() {
+                    res.push(("sink under a pushed chunk buffer (must stay empty)", rest, 0));
+                }
+                res.push(("chunk buffer of a context", buf, 0));
+            }
+            let mut direct = SizeCalculator::new();
+            for op in &ops {
+                apply_wop(&mut direct, op).map_err(|e| sbase::classify(&e))?;
+            }
+            res.push(("SizeCalculator", Vec::new(), direct.size()));
+            let mut behind = SerializationContext::new(SizeCalculator::new());
+            for op in &ops {
+                apply_wop(&mut behind, op).map_err(|e| sbase::classify(&e))?;
+            }
+            res.push(("context over SizeCalculator", Vec::new(), behind.into_output().size()));
+            Ok(res)
+        })
+        .0;
+        acc.case(Some(sig(&[format!("{ops:?}").as_bytes()])));
+        let detail = |what: String| J::obj().with("check", J::s("C15")).with("mode", J::s("write_ops")).with("round", J::u(round)).with("ops", J::s(format!("{ops:?}").chars().take(600).collect::<String>())).with("what", J::s(what));
+        match out {
+            Call::Ok(res) => {
+                let reference = res[0].1.clone();
+                let mut ok = true;
+                for (name, bytes, size) in &res {
+                    if name.contains("SizeCalculator") {
+                        if *size != reference.len() {
+                            ok = false;
+                            acc.violation(format!("C15|write_ops|size|{name}"), detail(format!("{name} counted {size} bytes, Vec<u8> received {}", reference.len())));
+                        }
+                    } else if name.contains("must stay empty") || *bytes != reference {
+                        ok = false;
+                        acc.violation(format!("C15|write_ops|bytes|{name}"), detail(format!("{name} holds {} — Vec<u8> holds {}", short(bytes), short(&reference))));
+                    }
+                }
+                if ok {
+                    acc.count("write_sequences_agree_on_every_sink");
+                }
+            }
+            other => acc.violation(format!("C15|write_ops|{}", other.class()), detail(format!("the sequence did not complete: {}", other.class()))),
+        }
+    }
+}
+
 pub fn c15(ctx: &mut Ctx, acc: &mut Acc) -> i32 {
     if ctx.extra.get("only").is_none() {
         crate::rt::big_values(ctx, acc, "C15");
@@ -539,5 +691,6 @@ pub fn c15(ctx: &mut Ctx, acc: &mut Acc) -> i32 {
     let rounds = ctx.n(200_000, 2_000_000);
     crate::inputs::op_sequences(ctx, acc, "C15", false, rounds);
     crate::inputs::op_sequences(ctx, acc, "C15", true, rounds);
+    write_op_sequences(ctx, acc, rounds / 2);
     0
 }
